@@ -65,3 +65,10 @@ CHECKS["C03"] = dict(
     text="z3 decides for ALL file and directory names of any length that the union of the real ignore patterns (with .match semantics) accepts exactly the names the statement excludes (both inclusions; LF-free and LF-containing names separately). CrossHair explores every path of the real is_path_ignored for 27 names on both sides of each rule x 6 path kinds x parent x VCS answers x 3 include flags x subset membership against the statement's decision table, and of the real iter_files (os.walk replaced by a pruning-aware model) over a two-level tree with symbolic kinds and VCS answers, confirming that exactly the non-excluded files without excluded ancestors are yielded.",
     note="PARTIAL: Git's own answer (what the external git process reports for a .gitignore) is not encodable and is outside the claim; what is decided is that for any answer of the VCS layer the selection is right. Stubs: Path model, VCS model, os.walk model. Known findings: CAL-1.0/SHL-2.1 licence-text workaround names skipped everywhere; LF artefacts. Fixed: unescaped dot in the SPDX-document pattern (b49d0bc).",
 )
+
+CHECKS["C18"] = dict(
+    engine="XH",
+    technique="SMT (z3 propositional): LicenseConcluded computed by the real code is equivalent to the conjunction of the file's expressions under every truth assignment; symbolic execution (CrossHair) of the real bill_of_materials against a reference tag-value reader",
+    text="For ~2 800 (quick) / ~20 000 (thorough) enumerated and sampled expression sets (1-3 expressions, AND/OR nesting to depth 2-3, 'X+' and 'X WITH E' atoms) the real FileReport.generate computes LicenseConcluded and z3 decides that `conjunction != concluded` is unsatisfiable. CrossHair explores the real bill_of_materials for 1-2 files with names, copyright texts, licence lists and creator forms chosen from lists of awkward shapes and checks with a reference reader: one File section per report and no other, unique SPDXIDs matched by exactly one DESCRIBES each, fields equal to the report's, LicenseRef texts included, creator rendered.",
+    note="PARTIAL: SHA-1/MD5 are outside (hash loops; hashlib's contract), as are the covered-file set (C03) and the full tag-value grammar. Names are chosen from lists because the writer on symbolic strings exceeded every path budget. SPDXID distinctness is checked concretely through the real generate on near-identical names with identical checksums.",
+)
